@@ -52,9 +52,15 @@ BigTrees == {VStr(x) : x \in EscStrs \cup LongStrs}
             \cup {VNum(n) : n \in NumIds}
 
 \* tokens of tens of kilobytes: the print buffer passes 64 KiB and single tokens exceed half of it (emission of Render only)
-HugeTrees == {VObj(<< <<<<104>>, VStr(As(40000))>>, <<<<110>>, VNum(N_one)>>, <<<<98>>, VStr(As(100000))>>, <<<<116>>, VArr(<<VTrue, VNull>>)>> >>),
+\* as deep as the parser accepts (CJSON_NESTING_LIMIT = 1000 containers, a value inside the innermost one) and deeper (construction API)
+RECURSIVE DeepA(_, _)
+DeepA(d, leaf) == IF d = 0 THEN leaf ELSE VArr(<<DeepA(d - 1, leaf)>>)
+RECURSIVE DeepO(_, _)
+DeepO(d, leaf) == IF d = 0 THEN leaf ELSE VObj(<< <<<<107>>, DeepO(d - 1, leaf)>> >>)
+DeepTrees == {DeepA(1000, VNum(N_one)), DeepA(999, VArr(<<>>)), DeepO(1000, VStr(<<118>>)), DeepO(400, DeepA(600, VNull))}
+HugeTrees == DeepTrees \cup {VObj(<< <<<<104>>, VStr(As(40000))>>, <<<<110>>, VNum(N_one)>>, <<<<98>>, VStr(As(100000))>>, <<<<116>>, VArr(<<VTrue, VNull>>)>> >>),
               VStr(As(66000)), VArr([i \in 1..9000 |-> VStr(As(7))]) }
-Universe == IF Tier = "huge" THEN HugeTrees ELSE IF Tier = "table" THEN {VNull} ELSE IF Tier = "quick" THEN Scalars \cup L1 \cup D3 \cup Raws
+Universe == IF Tier = "huge" THEN HugeTrees ELSE IF Tier = "deep" THEN {DeepA(1000, VNum(N_one)), DeepA(999, VArr(<<>>)), DeepO(1000, VNull)} ELSE IF Tier = "table" THEN {VNull} ELSE IF Tier = "quick" THEN Scalars \cup L1 \cup D3 \cup Raws
             ELSE IF Tier = "big" THEN BigTrees
             ELSE Scalars \cup L1 \cup L2 \cup D3 \cup Raws
 
@@ -101,5 +107,5 @@ Check ==
 EmitOnly == LET text == Render(v, fmt, 0) IN Emit => PrintT(ToJson(<<"R", JV(v), fmt, text, Len(text) + 2>>))
 EmitTable == /\ Assert(ContextFree, "EscBody is not a byte-wise map")
              /\ (Emit => PrintT(ToJson(<<"E", EscTable>>)))
-Next == phase = 0 /\ phase' = 1 /\ UNCHANGED <<v, fmt>> /\ (IF Tier = "huge" THEN EmitOnly ELSE IF Tier = "table" THEN EmitTable ELSE Check)
+Next == phase = 0 /\ phase' = 1 /\ UNCHANGED <<v, fmt>> /\ (IF Tier \in {"huge", "deep"} THEN EmitOnly ELSE IF Tier = "table" THEN EmitTable ELSE Check)
 =============================================================================
